@@ -28,7 +28,9 @@ TRACED = ('mido/ports.py', 'mido/parser.py', 'mido/tokenizer.py', 'mido/sockets.
           'mido/midifiles/meta.py')
 KINDS = ('locked_old', 'locked_new', 'echo', 'ioport', 'multi', 'multi_yield', 'pq', 'pair')
 MSG_SHAPES = ('note_on', 'control_change', 'program_change', 'pitchwheel', 'sysex', 'sysex', 'songpos', 'note_off',
-              'rt')
+              'rt', 'sysex_raw')
+BURST_SENDER = 99       # reset()/panic() bursts: identity (99, position in the burst)
+BURST_CONTROLS = {123: 0, 121: 1, 120: 2}
 RT_NAMES = ('clock', 'start', 'continue', 'stop', 'active_sensing', 'reset')
 _CUR = {'sched': None}
 
@@ -59,13 +61,28 @@ def make_msg(shape, sender, seq, pad):
         # a real-time message has no data field: the identity travels in `time` (kept by in-process ports,
         # dropped by byte-wise device ports, where such messages are counted per type instead)
         return mido.Message(RT_NAMES[pad % 6], time=sender * 1000 + seq + 1)
-    return mido.Message('sysex', data=[sender, seq] + [(pad + i) % 128 for i in range(pad % 13)])
+    data = [sender, seq] + [(pad + i) % 128 for i in range(pad % 13)]
+    if shape == 'sysex_raw':
+        # the application vouches for the values itself and hands over its own mutable buffer
+        return mido.Message('sysex', data=bytearray(data) if pad & 1 else data, skip_checks=True)
+    return mido.Message('sysex', data=data)
+
+
+def burst_messages(which):
+    """What reset() / panic() must put on the port, written from their documentation."""
+    out = []
+    for ch in range(16):
+        for ctl in ((123, 121) if which == 'reset' else (120,)):
+            out.append(mido.Message('control_change', channel=ch, control=ctl))
+    return out
 
 
 def ident(m):
     t = m.type
     if t in ('note_on', 'note_off'):
         return (m.channel, m.note)
+    if t == 'control_change' and m.control in BURST_CONTROLS:
+        return (BURST_SENDER, m.channel * 2 + BURST_CONTROLS[m.control] if m.control != 120 else 32 + m.channel)
     if t == 'control_change':
         return (m.channel, m.control)
     if t == 'program_change':
@@ -107,6 +124,7 @@ def _mutate(m):
     elif t in RT_NAMES:
         m.time = m.time + 500
     else:
+        m.data += [126]
         m.data = [127, 127] + list(m.data)
 
 
@@ -201,6 +219,10 @@ class PortsConc(BaseEngine):
         for s in range(n_send):
             senders.append([[pick(rng, MSG_SHAPES), rng.randrange(128)] for _ in range(rng.randint(1, 5))])
         total = sum(len(s) for s in senders)
+        if kind not in ('pq', 'pair') and rng.random() < 0.12:
+            # one sender also calls reset() or panic(): a burst of library-made messages through the same send path
+            tgt_s = senders[rng.randrange(n_send)]
+            tgt_s.insert(rng.randint(0, len(tgt_s)), [pick(rng, ('reset', 'reset', 'panic')), 0])
         receivers = []
         n_sub = rng.randint(1, 3) if kind.startswith('multi') else 1
         for r in range(n_recv):
@@ -234,7 +256,8 @@ class PortsConc(BaseEngine):
                 'receivers_mutate': rng.random() < 0.4, 'prelude': rng.random() < 0.25,
                 'chunks': [rng.randint(1, 4) for _ in range(8)], 'pq_whole': rng.random() < 0.5, 'pq_batch': [pick(rng, (1, 1, 2, 3, 4)) for _ in range(3)],
                 'sleep_time': pick(rng, (1e-4, 1e-3, 1e-2, 0.5)), 'start_time': pick(rng, (0.0, 100.0, 1.7e9)),
-                'sched': sched, 'sched_seed': derive(prop, seed, idx, 'sched'), 'decisions': [], 'total': total}
+                'sched': sched, 'sched_seed': derive(prop, seed, idx, 'sched'), 'decisions': [], 'total': total,
+                'max_steps': 400000 if any(sh in ('reset', 'panic') for s_ in senders for sh, _ in s_) else 30000}
 
     def gen_twin(self, prop, seed, idx, wires, rng):
         """Two threads, each an independent user of the parser (own Parser object fed in chunks, or repeated
@@ -561,8 +584,18 @@ class PortsConc(BaseEngine):
                 if kind == 'pq':
                     return pq_driver(si)
                 for seq, (shape, pad) in enumerate(plan['senders'][si]):
+                    if shape in ('reset', 'panic'):
+                        if kind in ('pq', 'pair'):
+                            continue
+                        base = 0 if shape == 'reset' else 32
+                        for j, bm in enumerate(burst_messages(shape)):
+                            sent.append((BURST_SENDER, base + j, bm, sched.total_steps, None))
+                        inv, _ = guarded(f'S{si}', shape, getattr(port, shape))
+                        record(f'S{si}', shape, inv, (si, seq))
+                        stats['fault:' + shape + '_burst'] += 1
+                        continue
                     m = make_msg(shape, si, seq, pad)
-                    orig = m.copy()
+                    orig = make_msg('sysex' if shape == 'sysex_raw' else shape, si, seq, pad)
                     sent.append((si, seq, orig, sched.total_steps, m))
                     inv, _ = guarded(f'S{si}', 'send', (subs[si % 2] if kind == 'pair' else port).send, m)
                     record(f'S{si}', 'send', inv, (si, seq))
@@ -1029,7 +1062,7 @@ class PortsConc(BaseEngine):
                                                    f'independent port')
             if m != orig:
                 raise Violation(f'corrupt-or-mutated@{kind}', f'{th}.{op} returned {m!r}, sent was {orig!r}')
-            if (m is obj or (clone_ids or {}).get(id(m)) is obj) and kind != 'pq':
+            if obj is not None and (m is obj or (clone_ids or {}).get(id(m)) is obj) and kind != 'pq':
                 raise Violation(f'not-a-copy@{kind}', f'{th}.{op} returned the very object that was sent')
             if ret < sinv:
                 raise Violation(f'received-before-sent@{kind}', f'{m!r} received at {ret} but send invoked at {sinv}')
